@@ -159,6 +159,8 @@ def check_2d(ctx):
             n = len(c["lon"]) if fn == "loc" else len(c["x"])
             if n < 2 or n % 2 or (fn in ("roc", "flat", "att", "clim") and len(c["t"]) != n) or (fn == "loc" and len(c["lat"]) != n):
                 continue
+            if fn == "loc" and c["p"]["shapes"] != "same":
+                continue      # (a call that is about two inputs of DIFFERENT shapes; reshaping both alike would undo that)
             func, kw = qcexec.build(c, {})
             kw2 = dict(kw)
             for k in ("inp", "tinp", "zinp", "lon", "lat"):
@@ -421,6 +423,83 @@ def check_dictops(ctx):
     return [(by[i], cl) for i, cl in rejects], len(events)
 
 
+def check_scalar_util(ctx):
+    """utils.isnan / isfixedlength / masked_float64 (ScalarUtil.tla)"""
+    import numpy as np
+    import qcexec  # noqa: F401
+    from ioos_qc.utils import isfixedlength, isnan, masked_float64
+    r = ctx.rng
+    events = []
+
+    def ev(d):
+        d["id"] = len(events) + 1
+        events.append(d)
+    values = {"none": None, "np_nan": np.nan, "float_nan": float("nan"), "np_float64_nan": np.float64("nan"),
+              "masked": np.ma.masked, "zero": 0, "int": 7, "float": 2.5, "neg": -3.0, "str": "x"}
+    for kind, v in values.items():
+        e = {"ev": "isnan", "kind": kind, "out": False, "exc": ""}
+        try:
+            e["out"] = bool(isnan(v))
+        except Exception as ex:  # noqa: BLE001
+            e["exc"] = type(ex).__name__
+        ev(e)
+    makers = {"list": list, "tuple": tuple, "ndarray": np.array, "str": lambda x: "".join("x" for _ in x), "none": lambda x: None,
+              "int": lambda x: len(x), "set": set, "dict": lambda x: {i: i for i in x}}
+    for kind, mk in makers.items():
+        for ln in range(0, 5):
+            for want in range(0, 5):
+                e = {"ev": "fixed", "kind": kind, "len": ln, "want": want, "out": ""}
+                try:
+                    e["out"] = str(isfixedlength(mk(list(range(ln))), want))
+                except Exception as ex:  # noqa: BLE001
+                    e["out"] = type(ex).__name__
+                ev(e)
+    elem = {"v": None, "none": None, "nan": float("nan"), "inf": float("inf"), "ninf": float("-inf"), "masked": None}
+    for rep in range(400):
+        n = r.randint(0, 6)
+        kinds = [r.choice(["v", "v", "v", "none", "nan", "inf", "ninf", "masked"]) for _ in range(n)]
+        src = [r.randint(-50, 50) for _ in range(n)]
+        carrier = r.choice(["list", "f64", "ma", "object", "i64"])
+        if carrier in ("f64", "i64"):
+            kinds = ["v" if k in ("none", "masked") else k for k in kinds]
+        if carrier == "i64":
+            kinds = ["v"] * n
+        if carrier != "ma":
+            kinds = ["v" if k == "masked" else k for k in kinds]
+        raw = [float(s) if k == "v" else (None if k == "none" else elem[k] if k != "masked" else 777.0) for s, k in zip(src, kinds)]
+        if carrier == "list":
+            obj = list(raw)
+        elif carrier == "object":
+            obj = np.array(raw, dtype=object)
+        elif carrier == "f64":
+            obj = np.array(raw, dtype=np.float64)
+        elif carrier == "i64":
+            obj = np.array(src, dtype=np.int64)
+        else:
+            obj = np.ma.MaskedArray(np.array([np.nan if x is None else x for x in raw], dtype=np.float64),
+                                    mask=[k == "masked" for k in kinds])
+        kinds = ["nan" if (k == "none" and carrier == "ma") else k for k in kinds]
+
+        def snap(o):
+            if isinstance(o, np.ma.MaskedArray):
+                return [repr(x) for x in o.data.tolist()] + [repr(x) for x in np.ma.getmaskarray(o).tolist()]
+            return [repr(x) for x in (o.tolist() if isinstance(o, np.ndarray) else o)]
+        e = {"ev": "mf64", "kinds": kinds, "src": src, "carrier": carrier, "mask": [], "vals": [], "exc": "",
+             "src_before": snap(obj), "src_after": []}
+        try:
+            out = masked_float64(obj)
+            e["mask"] = [bool(b) for b in np.ma.getmaskarray(out).tolist()]
+            e["vals"] = [int(x) if (not m and float(x).is_integer()) else 0 for x, m in zip(out.data.tolist(), e["mask"])]
+        except Exception as ex:  # noqa: BLE001
+            e["exc"] = type(ex).__name__
+        e["src_after"] = snap(obj)
+        ev(e)
+    import tv
+    rej, _ = tv.validate(events, "ScalarUtil", "X_scalar")
+    by = {e["id"]: e for e in events}
+    return [(by[i], cl) for i, cl in rej], len(events)
+
+
 # Growth findings on the unchanged tree (documented in DESIGN.md section 8; none of them is a listed property). A rejected
 # clause they explain is printed as GROWTH-FINDING; anything else is an EXTRA-REJECT and makes `./vcheck extra` exit 1.
 KNOWN_GROWTH = [
@@ -435,6 +514,8 @@ KNOWN_GROWTH = [
      and any(h["fidx"] == -1 for h in e["obs"]["has"])),
     ("G5 a Call whose parameters hold a list is not hashable",
      lambda name, cl, e: cl == "ops_hashable"),
+    ("G7 utils.isnan is an identity test: a NaN that is not the numpy singleton (float('nan'), np.float64('nan')) is 'not NaN'",
+     lambda name, cl, e: cl == "isnan_value" and e.get("kind") in ("float_nan", "np_float64_nan") and e.get("out") is False),
     ("G6 climatology_test with a week-based member raises ValueError when an observation has no time (NaT)",
      lambda name, cl, e: "NaT" in name and e["obs"]["exc"] == "ValueError"
      and any(m["period"] in ("week", "weekofyear") for m in e["call"]["p"]["members"])),
@@ -451,7 +532,8 @@ def run():
                      ("flag metadata of the test functions, stream accessors (ApiMeta.tla)", check_api_meta),
                      ("utils.dict_update / dict_depth (DictOps.tla)", check_dictops),
                      ("ClimatologyConfig.values lookup (QcTests.ClimValues)", check_clim_values),
-                     ("utils.mapdates on times with a UTC offset (TimeZones.tla)", check_time_zones)):
+                     ("utils.mapdates on times with a UTC offset (TimeZones.tla)", check_time_zones),
+                     ("utils.isnan / isfixedlength / masked_float64 (ScalarUtil.tla)", check_scalar_util)):
         owned, n = fn(ctx)
         known, fresh = {}, []
         for e, cl in owned:
